@@ -34,6 +34,9 @@ type ACase struct {
 	FKind string `json:"fkind"` // init family
 	N     int    `json:"n"`
 	Where string `json:"where"` // inherited-member family: same | sameacct | otheracct
+	First  string `json:"first"`  // initializer-shape family
+	Jump   string `json:"jump"`
+	Second string `json:"second"`
 }
 
 type AResult struct {
@@ -41,6 +44,8 @@ type AResult struct {
 	Accept bool     `json:"accept"`
 	Access []string `json:"access"` // access / constant-field errors
 	Other  []string `json:"other"`  // anything else: harness error
+	Writes map[string]int `json:"writes,omitempty"` // initializer shapes: engine -> most writes of the field seen in one construction
+	RunErr map[string]string `json:"runerr,omitempty"`
 	Src    string   `json:"src,omitempty"`
 }
 
@@ -341,6 +346,83 @@ func runInhCase(c *ACase, w *host.World, res *AResult, srcs *[]string) {
 	classifyAcc(r.Err, res)
 }
 
+
+// ---- initializer shapes: FIRST ; JUMP ; SECOND over a let field; every write logs "w"
+
+func shapeProgram(c *ACase) string {
+	res := c.FKind == "letres"
+	asg := func(v int) string {
+		if res {
+			return "self.x <- create R(); log(\"w\")"
+		}
+		return fmt.Sprintf("self.x = %d; log(\"w\")", v)
+	}
+	var b strings.Builder
+	switch c.First {
+	case "uncond":
+		b.WriteString("      " + asg(1) + "\n")
+	case "ifthen":
+		b.WriteString("      if c1 { " + asg(1) + " }\n")
+	case "ifboth":
+		b.WriteString("      if c1 { " + asg(1) + " } else { " + asg(1) + " }\n")
+	case "elseonly":
+		b.WriteString("      if c1 { } else { " + asg(1) + " }\n")
+	case "while":
+		b.WriteString("      var i = 0\n      while i < n { " + asg(1) + "; i = i + 1 }\n")
+	case "switch":
+		b.WriteString("      switch n {\n        case 2: " + asg(1) + "\n        default: log(\"d\")\n      }\n")
+	}
+	switch c.Jump {
+	case "ifreturn":
+		b.WriteString("      if c2 { return }\n")
+	case "loopreturn":
+		b.WriteString("      while c2 { return }\n")
+	}
+	switch c.Second {
+	case "uncond":
+		b.WriteString("      " + asg(2) + "\n")
+	case "cond":
+		b.WriteString("      if c3 { " + asg(2) + " }\n")
+	}
+	kw, decl, mk := "struct", "access(all) let x: Int", "access(all) fun mk(c1: Bool, c2: Bool, c3: Bool, n: Int) { let q = Q(c1: c1, c2: c2, c3: c3, n: n) }"
+	if res {
+		kw, decl = "resource", "access(all) let x: @R"
+		mk = "access(all) fun mk(c1: Bool, c2: Bool, c3: Bool, n: Int) { let q <- create Q(c1: c1, c2: c2, c3: c3, n: n); destroy q }"
+	}
+	return fmt.Sprintf("access(all) contract K {\n  access(all) resource R {}\n  access(all) %s Q {\n    %s\n    init(c1: Bool, c2: Bool, c3: Bool, n: Int) {\n%s    }\n  }\n  %s\n  init() {}\n}\n",
+		kw, decl, b.String(), mk)
+}
+
+func runShapeCase(c *ACase, w *host.World, res *AResult, srcs *[]string) {
+	src := shapeProgram(c)
+	*srcs = append(*srcs, "// deploy K to 0x1\n"+src)
+	classifyAcc(w.Deploy(host.Addr(1), "K", src), res)
+	if !res.Accept {
+		return
+	}
+	res.Writes, res.RunErr = map[string]int{}, map[string]string{}
+	for _, vm := range []bool{false, true} {
+		eng := map[bool]string{false: "interpreter", true: "vm"}[vm]
+		for m := 0; m < 8; m++ {
+			script := fmt.Sprintf("import K from 0x1\naccess(all) fun main() { K.mk(c1: %v, c2: %v, c3: %v, n: 2) }", m&1 != 0, m&2 != 0, m&4 != 0)
+			r := w.Script(script, vm)
+			if r.Err != nil {
+				res.RunErr[eng] = r.Class
+				continue
+			}
+			n := 0
+			for _, l := range r.Logs {
+				if l == "w" {
+					n++
+				}
+			}
+			if n > res.Writes[eng] {
+				res.Writes[eng] = n
+			}
+		}
+	}
+}
+
 // findCheckerError digs the sema.CheckerError out of a runtime error chain.
 func findCheckerErrors(err error, out *[]error, depth int) {
 	if err == nil || depth > 40 {
@@ -417,6 +499,10 @@ func runAccCase(c *ACase, withSrc bool) AResult {
 	}
 	if c.Kind == "inh" {
 		runInhCase(c, w, &res, &srcs)
+		return res
+	}
+	if c.Kind == "initshape" {
+		runShapeCase(c, w, &res, &srcs)
 		return res
 	}
 	switch c.Site {
